@@ -102,13 +102,18 @@ def fbigEq (a b : FRepr) : Bool :=
 /-- `Sign * Ordering` -/
 def mulOrd (neg : Bool) (o : Ordering) : Ordering := if neg then o.swap else o
 
-/-- case 4 of `repr_cmp_same_base`: exponent against precision (only when both precisions are limited) -/
+/-- `isize::MAX` of the 64-bit target (the clamp of case 4 since /repo ee43486) -/
+def cmpIsizeMax : Nat := 2 ^ 63 - 1
+
+/-- case 4 of `repr_cmp_same_base`: exponent against precision (only when both precisions are limited).
+    Since /repo ee43486 each precision is clamped first (`lhs_prec.min(isize::MAX as usize) as isize`) and the
+    sums saturate; over the model's unbounded `Int` a saturating sum is the exact sum. -/
 def cmpCase4 (ln : Bool) (e1 e2 : Int) (prec : Option (Nat × Nat)) : Option Ordering :=
   match prec with
   | some (lp, rp) =>
     if lp ≠ 0 ∧ rp ≠ 0 then
-      if e1 > e2 + rp then some (mulOrd ln .gt)
-      else if e2 > e1 + lp then some (mulOrd ln .lt)
+      if e1 > e2 + (min rp cmpIsizeMax : Nat) then some (mulOrd ln .gt)
+      else if e2 > e1 + (min lp cmpIsizeMax : Nat) then some (mulOrd ln .lt)
       else none
     else none
   | none => none
